@@ -16,9 +16,18 @@ def run_case(s, ro_txt, kind, kw, mid=2, pretty=False, ctx=None, noise_rng=None)
         msg = gen.split_ids(noise_rng, msg)
         ro_txt = gen.split_ids(noise_rng, ro_txt, p=0.3)
     ro = s.load(ro_txt)
-    return s.step(ro, msg, ctx)
+    r = s.step(ro, msg, ctx)
+    _CASES[0] += 1
+    if _CASES[0] % 6 == 0:
+        # the same case again in a host that turns deprecation / bytes warnings into errors (pytest -W error,
+        # PYTHONWARNINGS=error::DeprecationWarning): a merge does nothing that is deprecated, so nothing changes
+        cat = DeprecationWarning if _CASES[0] % 12 == 0 else PendingDeprecationWarning
+        s.step(s.load(ro_txt), msg, dict(ctx or {}, host_filter='error::' + cat.__name__), error_on=cat)
+        s.hist['cases_repeated_under_error::' + cat.__name__] += 1
+    return r
 
 
+_CASES = [0]
 HOSTILE_NAMES = ['NEWS,AM,S1', '5" x 7\' card', 'S1', 's1', 'S1 ', 'S10', ' S1', 'S01', 'B"][itemID=\'B\'][itemID="B',
                  '{6B29FC40-CA47}']
 # a second ordering of hostile names for the quick grids (which only use the first few): IDs that differ
@@ -26,6 +35,10 @@ HOSTILE_NAMES = ['NEWS,AM,S1', '5" x 7\' card', 'S1', 's1', 'S1 ', 'S10', ' S1',
 HOSTILE_NAMES_B = ['S1', 'S1 ', ' S1', 'S01', 's1', 'S10']
 # numeric IDs that are equal as numbers and different as IDs; digits that are not ASCII digits
 HOSTILE_NAMES_C = ['7', '07', '+7', '70', '\u00b2', '\u2460\u2461']
+# IDs that differ only in characters that do not show (format characters: soft hyphen, zero-width joiners,
+# direction marks) or in look-alike letters: different IDs all the same
+HOSTILE_NAMES_D = ['coop', 'co\u00adop', 'Mo\u200cn', 'Mon', 'a\u200db', 'ab']
+INVISIBLE_UNKNOWN = 'co\u200bop'
 NUMERIC_UNKNOWN = '007'
 HOSTILE_UNKNOWN = 'SPORT,AM,S1'       # not in any running order, but its last component is
 # IDs longer than the protocol's nominal 128 characters that differ only after that length
@@ -38,6 +51,8 @@ assert len(_LONG) == 128
 def _unknown_for(names):
     if names is LONG_NAMES:
         return LONG_UNKNOWN
+    if names is HOSTILE_NAMES_D:
+        return INVISIBLE_UNKNOWN
     if names is HOSTILE_NAMES_C:
         return NUMERIC_UNKNOWN
     return HOSTILE_UNKNOWN
@@ -470,6 +485,12 @@ def make_collection(s, docs, how, allow_incomplete, tmpdir=None, names=None):
                 os.makedirs(os.path.dirname(p), exist_ok=True)      # names may put files in directories of their own
                 with open(p, 'w', encoding='utf-8') as f:
                     f.write(d)
+                # when a file was written says nothing about the message in it: modification times spread over
+                # three days around midnight, unrelated to the message IDs
+                import zlib
+                h_ = zlib.crc32(d.encode('utf-8', 'replace')) ^ (k * 2654435761 & 0xffffffff)
+                t_ = 1710028800 + (h_ % 3 - 1) * 86400 + (h_ >> 3) % 7200 - 3600      # 2024-03-10T00:00Z +- a day, +- an hour
+                os.utime(p, (t_, t_))
                 # files-mixed: every other path is given relative to the working directory
                 paths.append(os.path.relpath(p) if (how == 'files-mixed' and k % 2) else p)
             return mcmod.MosCollection.from_files(paths, **kwargs), None
